@@ -199,9 +199,20 @@ def checkStep (ev : StepEv) : List Verdict :=
   match foldSpec specFun ev.funs ev.prev.terminal with
   | none => []
   | some expected =>
+    -- the property speaks of the cursor as the API shows it: "wrap pending" IS the position col = cols.
+    -- A state whose internal flag says "pending" while the cursor sits on a real column (excluded by the
+    -- invariant, C02) must still print into the cell under the cursor; `printSpec` from the state with the
+    -- flag normalised says where.  On states satisfying the invariant the two coincide.
+    let t := ev.prev.terminal
+    let apiView : Terminal := if t.cursor.col < t.cols then { t with pendingWrap := false } else t
     [check "C04.printSpec: state after Print/Rep run differs from the specification"
        (nontrivialRun ev.prev.terminal ev.funs)
-       (ev.next.terminal == afterCall ev.kind expected)]
+       (ev.next.terminal == afterCall ev.kind expected),
+     check "C04.print-goes-into-the-cell-under-the-cursor (pending flag set off the wrap-pending column)"
+       (t.pendingWrap && t.cursor.col < t.cols)
+       (match foldSpec specFun ev.funs apiView with
+        | some e2 => ev.next.terminal == afterCall ev.kind e2
+        | none => true)]
 
 def checkNew (_cols _rows : Nat) (_lim : Option Nat) (_st : Vt) : List Verdict := []
 
